@@ -46,27 +46,27 @@ const (
 )
 
 type framePlan struct {
-	id        int
-	typ       int
-	foreign   bool
-	av        protoreflect.Message
-	wire      []byte // foreign frames: pre-encoded
-	api       int    // 0 Marshal 1 MarshalAppend 2 methods 3 deterministic
-	prefixLen int
-	prefixCap int
-	consumer  int
-	bcast     int // second consumer decoding the same buffer, or -1
-	handler   int // -1: consumer digests it itself
-	handler2  int // second handler reading the same message, or -1
-	dup       bool
-	insertPos int // reorder: position among pending frames of the consumer's inbox
-	reuse     int // 0 none, 1 flip bytes in place, 2 reset+refill, 3 both
-	discard   bool // consumers decode with DiscardUnknown
-	mergeTwice bool // consumers decode the frame and then merge-decode it again onto the result
-	prebuilt  proto.Message // pulsar producer: message built at plan time with a tape-drawn history
-	roOps     []int         // read-only calls the producer makes on its message before Marshal
-	staleSel  int           // >0: the producer clears a populated map/list field and then reads through views obtained before
-	accumulate bool         // the consumer merge-decodes this frame into its accumulator for the type (earlier frames' buffers are long recycled by then)
+	id         int
+	typ        int
+	foreign    bool
+	av         protoreflect.Message
+	wire       []byte // foreign frames: pre-encoded
+	api        int    // 0 Marshal 1 MarshalAppend 2 methods 3 deterministic
+	prefixLen  int
+	prefixCap  int
+	consumer   int
+	bcast      int // second consumer decoding the same buffer, or -1
+	handler    int // -1: consumer digests it itself
+	handler2   int // second handler reading the same message, or -1
+	dup        bool
+	insertPos  int           // reorder: position among pending frames of the consumer's inbox
+	reuse      int           // 0 none, 1 flip bytes in place, 2 reset+refill, 3 both
+	discard    bool          // consumers decode with DiscardUnknown
+	mergeTwice bool          // consumers decode the frame and then merge-decode it again onto the result
+	prebuilt   proto.Message // pulsar producer: message built at plan time with a tape-drawn history
+	roOps      []int         // read-only calls the producer makes on its message before Marshal
+	staleSel   int           // >0: the producer clears a populated map/list field and then reads through views obtained before
+	accumulate bool          // the consumer merge-decodes this frame into its accumulator for the type (earlier frames' buffers are long recycled by then)
 }
 
 type sentFrame struct {
@@ -493,6 +493,10 @@ func runPipeline(c *simrun.Ctx) *simrun.Violation {
 				}
 				if err != nil {
 					fp.prebuilt = nil
+				} else if t.Chance("odd-shape", 1, 6) {
+					if kind := t.Draw("odd-kind", 3); simval.OddShape(kind, t.Draw("odd-sel", 1<<16), fp.prebuilt) {
+						st.Add([]string{"fault_nil_message_map_value", "fault_typed_nil_oneof_wrapper", "fault_oneof_wrapper_with_nil_message"}[kind], 1)
+					}
 				}
 				for k, n := 0, t.Draw("roops", 4); k < n; k++ {
 					fp.roOps = append(fp.roOps, 1+t.Draw("roop", numHandlerOps-1))
@@ -622,12 +626,12 @@ func runPipeline(c *simrun.Ctx) *simrun.Violation {
 					// read-only calls before encoding must leave the struct alone
 					for _, op := range fp.roOps {
 						if fp.staleSel > 0 {
-						if d := staleViewReads(m, fp.staleSel); d != "" {
-							lg.errf("C07:read-only-call-changed-the-message-struct|reads through map/list views obtained before the owner cleared the field, frame %d (type %s): %s", fp.id, mt.Descriptor().FullName(), d)
+							if d := staleViewReads(m, fp.staleSel); d != "" {
+								lg.errf("C07:read-only-call-changed-the-message-struct|reads through map/list views obtained before the owner cleared the field, frame %d (type %s): %s", fp.id, mt.Descriptor().FullName(), d)
+							}
+							simhook.Yield(-2)
 						}
-						simhook.Yield(-2)
-					}
-					before := simval.TakeSnapshot(m)
+						before := simval.TakeSnapshot(m)
 						safeHandlerOp(m, op)
 						after := simval.TakeSnapshot(m)
 						if before.Hash != after.Hash {
@@ -641,32 +645,39 @@ func runPipeline(c *simrun.Ctx) *simrun.Violation {
 					for i := range prefix {
 						prefix[i] = 0xA5
 					}
-					switch fp.api {
-					case 0:
-						frame, err = proto.Marshal(m)
-					case 1:
-						var out []byte
-						out, err = proto.MarshalOptions{}.MarshalAppend(prefix, m)
-						if err == nil {
-							if len(out) < len(prefix) {
-								lg.errf("C07:marshalappend-disturbed-the-callers-prefix|frame %d: result shorter than the prefix", fp.id)
-								out = append(prefix[:0:0], prefix...)
+					func() {
+						defer func() {
+							if r := recover(); r != nil {
+								err = fmt.Errorf("marshal panicked (an odd message shape; another property's business): %v", r)
 							}
-							frame = out[len(prefix):]
-							for i := range prefix {
-								if out[i] != 0xA5 || prefix[i] != 0xA5 {
-									lg.errf("C07:marshalappend-disturbed-the-callers-prefix|frame %d (type %s): byte %d of the %d-byte prefix (cap %d) changed", fp.id, mt.Descriptor().FullName(), i, fp.prefixLen, fp.prefixCap)
-									break
+						}()
+						switch fp.api {
+						case 0:
+							frame, err = proto.Marshal(m)
+						case 1:
+							var out []byte
+							out, err = proto.MarshalOptions{}.MarshalAppend(prefix, m)
+							if err == nil {
+								if len(out) < len(prefix) {
+									lg.errf("C07:marshalappend-disturbed-the-callers-prefix|frame %d: result shorter than the prefix", fp.id)
+									out = append(prefix[:0:0], prefix...)
+								}
+								frame = out[len(prefix):]
+								for i := range prefix {
+									if out[i] != 0xA5 || prefix[i] != 0xA5 {
+										lg.errf("C07:marshalappend-disturbed-the-callers-prefix|frame %d (type %s): byte %d of the %d-byte prefix (cap %d) changed", fp.id, mt.Descriptor().FullName(), i, fp.prefixLen, fp.prefixCap)
+										break
+									}
 								}
 							}
+						case 2:
+							var out protoiface.MarshalOutput
+							out, err = m.ProtoReflect().ProtoMethods().Marshal(protoiface.MarshalInput{Message: m.ProtoReflect()})
+							frame = out.Buf
+						case 3:
+							frame, err = proto.MarshalOptions{Deterministic: true}.Marshal(m)
 						}
-					case 2:
-						var out protoiface.MarshalOutput
-						out, err = m.ProtoReflect().ProtoMethods().Marshal(protoiface.MarshalInput{Message: m.ProtoReflect()})
-						frame = out.Buf
-					case 3:
-						frame, err = proto.MarshalOptions{Deterministic: true}.Marshal(m)
-					}
+					}()
 					if err != nil {
 						lg.notes = append(lg.notes, "marshal failed: "+err.Error())
 						w.cancel(fp)
